@@ -75,6 +75,14 @@ func profileConfig(p string, seed uint64) RunConfig {
 		c.Faults = append(c.Faults, "n4")
 		c.NSMF = 2 + r.IntN(2)
 		c.CoLoc = r.IntN(3) == 0
+		if r.IntN(5) == 0 {
+			// a slow data plane: duplicates, answers and timer events queue up behind a
+			// request the event loop is still working on
+			c.KernLatency = pick(r, 40, 150)
+			c.RetransMs = pick(r, 311, 1009)
+			c.MaxRetrans = 1 + r.IntN(3)
+			c.AutoAnswer = false // answers come when the scenario says so (mid-turn)
+		}
 	case "C07":
 		if r.IntN(2) == 0 {
 			c.Driver = "empty"
@@ -111,6 +119,10 @@ func profileConfig(p string, seed uint64) RunConfig {
 			c.RetransMs = pick(r, 137, 311)
 			c.MaxRetrans = 1 + r.IntN(3)
 		}
+	case "C12":
+		// Session Report Requests left unanswered for a while: the requests that end a URR
+		// then find a report for it still outstanding
+		c.AutoAnswer = r.IntN(3) > 0
 	case "C11":
 		if r.IntN(3) == 0 {
 			c.Faults = append(c.Faults, "dp-empty-del") // a URR removal that yields no final report
@@ -128,6 +140,8 @@ func profileConfig(p string, seed uint64) RunConfig {
 		}
 		if p == "C13" && r.IntN(3) == 0 {
 			c.AutoFwd = false // notifications wait in the report queue while requests are served
+		} else if r.IntN(3) == 0 {
+			c.MidFwd = true // ... or arrive while the event loop is inside a turn and pile up
 		}
 	case "C15":
 		c.NSlots = 2 + r.IntN(4)
@@ -260,6 +274,10 @@ func newGen(s *Sim) *Gen {
 			// number their requests from small integers and use the same addresses
 			g.w["krep"], g.w["kbufnocp"], g.w["ans"] = 4, 3, 3
 		}
+		if s.cfg.KernLatency > 0 {
+			g.w["krep"], g.w["kbufnocp"], g.w["armans"], g.w["est"], g.w["mod"] = 6, 3, 8, 8, 8
+			g.w["crossdup"] = 6
+		}
 	case "C08":
 		g.w = map[string]int{"hb": 4, "assoc": 2, "reassoc": 1, "est": 8, "mod": 8, "del": 3, "adv": 3, "advbig": 2, "badest": 5, "probe": 4, "other": 2, "unknownpeer": 2}
 		g.perioOK = false
@@ -277,6 +295,9 @@ func newGen(s *Sim) *Gen {
 		if s.cfg.faultOn("dp-empty-del") {
 			g.w["fault"] = 4
 		}
+		if !s.cfg.AutoAnswer {
+			g.w["ans"], g.w["adv"] = 4, 5
+		}
 		if p == "C10" {
 			g.w["krepbad"] = 3
 			g.w["takeover"] = 1
@@ -286,6 +307,9 @@ func newGen(s *Sim) *Gen {
 		g.w = map[string]int{"est": 5, "kbuf": 14, "kbufburst": 2, "kbufbad": 2, "farflip": 12, "mod": 3, "del": 2, "rmpdr": 2, "adv": 1, "reest": 3, "reassoc": 2, "ansseid0": 1}
 		if s.cfg.faultOn("gtpu") {
 			g.w["gtpuerr"] = 2
+		}
+		if s.cfg.MidFwd {
+			g.w["armkbuf"] = 8
 		}
 	case "C15":
 		g.perioOK = true
@@ -1066,6 +1090,40 @@ func (g *Gen) one() (Action, bool) {
 	case "other":
 		t := uint8(pick(g.rng, mtPFDMgmtReq, mtAssocUpdateReq, mtAssocRelReq, mtNodeReportReq, mtSessSetDelReq))
 		return Action{Op: "send", SMF: m.Idx, Msg: &MsgIntent{T: "other", MsgType: t, Seq: g.seq(m)}}, true
+	case "crossdup":
+		// both directions number their requests independently and use the same addresses:
+		// a request of the peer and a report of the UPF with the SAME sequence number, the
+		// report's answer and its retransmission timer crossing inside a long event-loop
+		// turn, then the peer's request once more
+		mm, sl, x := g.anyLive()
+		if x == nil || s.cfg.NoPeek {
+			return Action{}, false
+		}
+		urrs := sortedRefs(x.Req, "urr")
+		if len(urrs) == 0 {
+			return Action{}, false
+		}
+		n := s.peek().TxSeq & 0xffffff
+		ref := s.actNo
+		free := -1
+		for j := 0; j < s.cfg.NSlots; j++ {
+			if g.liveOf(mm, j) == nil {
+				free = j
+			}
+		}
+		g.pending = append(g.pending,
+			func() (Action, bool) {
+				return Action{Op: "krep", KRep: []KRepItem{{SMF: mm.Idx, Slot: sl, URR: urrs[0], Cause: 2}}}, true
+			},
+			func() (Action, bool) { return Action{Op: "armans", Ans: &AnsIntent{Idx: 0, Mode: "ok"}, N: 3 + g.intn(3)}, true },
+			func() (Action, bool) {
+				if free < 0 {
+					return Action{Op: "send", SMF: mm.Idx, Msg: &MsgIntent{T: "del", Seq: g.seq(mm), Slot: sl}}, true
+				}
+				return Action{Op: "send", SMF: mm.Idx, Msg: g.estMsg(mm, free)}, true
+			},
+			func() (Action, bool) { return Action{Op: "dup", Ref: ref}, true })
+		return Action{Op: "send", SMF: mm.Idx, Msg: &MsgIntent{T: "hb", Seq: n}}, true
 	case "sameseq":
 		// another peer uses a sequence number this peer used recently
 		if len(s.smfs) < 2 || len(g.sent) == 0 {
@@ -1164,6 +1222,13 @@ func (g *Gen) one() (Action, bool) {
 			d = (1 + g.intn(3000)) * 1000000
 		}
 		return Action{Op: "detach", KBuf: k, N: d}, true
+	case "armkbuf":
+		a, ok := g.kbuf()
+		if !ok || a.KBuf == nil {
+			return Action{}, false
+		}
+		a.KBuf.Count = 2 + g.intn(6)
+		return Action{Op: "armburst", KBuf: a.KBuf}, true
 	case "kbufburst":
 		// a burst well beyond a few packets: around and beyond plausible queue sizes
 		a, ok := g.kbuf()
